@@ -282,7 +282,7 @@ pub fn run_c05(thorough: bool, seed: u64, shards: usize) -> (Report, String) {
         rep
     });
     // threshold families (wide parents whose late children are demoted together, deep chains ...)
-    let th = hist::threshold_cases_light();
+    let th = hist::threshold_and_magnitude_light(seed, thorough);
     let sub = crate::report::sharded(shards, |shard| {
         let mut r = Report::new();
         for (i, c) in th.iter().enumerate() {
@@ -499,7 +499,7 @@ pub fn run_c11(thorough: bool, seed: u64, shards: usize) -> (Report, String) {
     let n: u64 = if thorough { 6_000_000 } else { 240_000 };
     let docs_a = hist::tiny_docs(3, true, false);
     let na = docs_a.len();
-    let th11 = hist::threshold_cases_light();
+    let th11 = hist::threshold_and_magnitude_light(seed, thorough);
     let rep = crate::report::sharded(shards, |shard| {
         let mut rep = Report::new();
         let per = n / shards as u64;
@@ -825,7 +825,7 @@ pub fn run_c06(thorough: bool, seed: u64, shards: usize) -> (Report, String) {
     let n: u64 = if thorough { 4_000_000 } else { 160_000 };
     let docs_a = hist::tiny_docs(3, true, false);
     let na = docs_a.len();
-    let th06 = hist::threshold_cases_light();
+    let th06 = hist::threshold_and_magnitude_light(seed, thorough);
     let rep = crate::report::sharded(shards, |shard| {
         let mut rep = Report::new();
         let per = n / shards as u64;
@@ -1074,7 +1074,7 @@ pub fn check_c10(case: &HistoryCase, rep: &mut Report) {
 
 pub fn run_c10(thorough: bool, seed: u64, shards: usize) -> (Report, String) {
     let n: u64 = if thorough { 8_000_000 } else { 320_000 };
-    let th10 = hist::threshold_cases_light();
+    let th10 = hist::threshold_and_magnitude_light(seed, thorough);
     let rep = crate::report::sharded(shards, |shard| {
         let mut rep = Report::new();
         let per = n / shards as u64;
